@@ -212,36 +212,72 @@ def _must_pass(ctx, fn, start, targets, kinds=NORMAL_KINDS):
     return True
 
 
+def candidate_collections(ctx, fn, rid):
+    """How a _get_available_jobs* function collects candidates. Supports the loop form
+    (`for job in cluster.iter_jobs(state=...): ... X.append(job)`) and the comprehension form
+    (`[job for job in cluster.iter_jobs(state=...) if ...]`). Returns a list of dicts:
+    iter (Call), state (expr or None), conds (set of (form, pol)) under which an element is collected,
+    elem_ok (the collected element is / derives from the loop variable), at (node for locations)."""
+    it = ctx.ix.find_func("Cluster.iter_jobs")
+    out = []
+    # comprehension form
+    for n in iter_own(fn.node):
+        if isinstance(n, (ast.ListComp, ast.GeneratorExp, ast.SetComp, ast.DictComp)) and len(n.generators) == 1:
+            g = n.generators[0]
+            s = ctx.cg.site_of(fn, g.iter) if isinstance(g.iter, ast.Call) else None
+            if s is not None and s.calls_short(ctx.ix, "Cluster.iter_jobs"):
+                conds = set()
+                for c in g.ifs:
+                    conds |= both_orders([norm(ctx, fn, c, None)])
+                elt = n.value if isinstance(n, ast.DictComp) else n.elt
+                names = {x.id for x in ast.walk(elt) if isinstance(x, ast.Name)}
+                tv = {x.id for x in ast.walk(g.target) if isinstance(x, ast.Name)}
+                out.append({"iter": g.iter, "state": ctx.arg_for(s, it, "state"), "conds": conds, "elem_ok": bool(names & tv), "at": n, "form": "comprehension"})
+    # loop form
+    for lp in [n for n in iter_own(fn.node) if isinstance(n, ast.For)]:
+        s = ctx.cg.site_of(fn, lp.iter) if isinstance(lp.iter, ast.Call) else None
+        if s is None or not s.calls_short(ctx.ix, "Cluster.iter_jobs"):
+            continue
+        lpvar = lp.target.id if isinstance(lp.target, ast.Name) else None
+        cfg = ctx.cfg(fn)
+        ins_nodes = []
+        for cn in cfg.nodes:
+            if not any(l is lp for l in ctx.enclosing(fn, cn.stmt, (ast.For,))):
+                continue
+            calls = [c for c in cfg.calls_at(cn) if isinstance(c.func, ast.Attribute) and c.func.attr in ("append", "add", "extend", "insert")]
+            sub = cn.kind == "stmt" and isinstance(cn.ast, ast.Assign) and isinstance(cn.ast.targets[0], ast.Subscript)
+            if calls or sub:
+                ins_nodes.append(cn)
+        for cn in ins_nodes:
+            names = {x.id for x in ast.walk(cn.stmt) if isinstance(x, ast.Name) and isinstance(x.ctx, ast.Load)}
+            out.append({"iter": lp.iter, "state": ctx.arg_for(s, it, "state"), "conds": guard_forms(ctx, fn, cn), "elem_ok": lpvar in names, "at": cn.stmt, "form": "loop"})
+        if not ins_nodes:
+            out.append({"iter": lp.iter, "state": ctx.arg_for(s, it, "state"), "conds": set(), "elem_ok": False, "at": lp, "form": "loop-without-collection"})
+    if not out:
+        raise AnalysisError(rid, f"{fn.short}: no loop or comprehension over Cluster.iter_jobs")
+    return out
+
+
 @rule(P, "C01.3", "T1+T13", "batch candidates are drawn only from not-submitted jobs", min_obligations=5)
 def c01_3(ctx, r):
     it = ctx.fn("Cluster.iter_jobs", "C01.3")
     for spec in (f"{HS}._get_available_jobs", f"{HS}._get_available_jobs_by_time"):
         fn = ctx.fn(spec, "C01.3")
-        loops = [n for n in iter_own(fn.node) if isinstance(n, ast.For)]
-        srcs = []
-        for lp in loops:
-            s = ctx.cg.site_of(fn, lp.iter) if isinstance(lp.iter, ast.Call) else None
-            if s is not None and s.calls_short(ctx.ix, "Cluster.iter_jobs"):
-                a = ctx.arg_for(s, it, "state")
-                srcs.append((lp, a))
-        if not srcs:
-            raise AnalysisError("C01.3", f"{fn.short}: no loop over Cluster.iter_jobs")
-        for lp, a in srcs:
-            r.check(a is not None and ctx.src(a) == "JobState.NOT_SUBMITTED", f"{fn.short}: candidates = iter_jobs(state=NOT_SUBMITTED)", key_of(fn, "candidate state filter"), fn.loc(lp),
+        for cc in candidate_collections(ctx, fn, "C01.3"):
+            a = cc["state"]
+            r.check(a is not None and ctx.src(a) == "JobState.NOT_SUBMITTED", f"{fn.short}: candidates = iter_jobs(state=NOT_SUBMITTED)", key_of(fn, "candidate state filter"), fn.loc(cc["at"]),
                     f"batch candidates are drawn with state={ctx.src(a) if a is not None else None}: submitted / done jobs are batched again",
                     "places every job of the configuration into at most one batch")
-        # what is returned derives from the loop variable only
+            r.check(cc["elem_ok"], f"{fn.short}: only loop candidates are collected", key_of(fn, f"collect {ctx.src(cc['at'])[:40]}"), fn.loc(cc["at"]),
+                    f"`{ctx.src(cc['at'])[:60]}` adds something other than the current not-submitted candidate")
+        # other insertions (outside a loop over iter_jobs) must not exist
+        loops_ok = [n for n in iter_own(fn.node) if isinstance(n, ast.For) and isinstance(n.iter, ast.Call) and ctx.cg.site_of(fn, n.iter) is not None and ctx.cg.site_of(fn, n.iter).calls_short(ctx.ix, "Cluster.iter_jobs")]
+        for n in iter_own(fn.node):
+            if isinstance(n, ast.Call) and isinstance(n.func, ast.Attribute) and n.func.attr in ("append", "add", "extend", "insert"):
+                inl = any(l in loops_ok for l in ctx.enclosing(fn, n, (ast.For,)))
+                r.check(inl, f"{fn.short}: insertions happen only inside the candidate loop", key_of(fn, f"foreign insertion {ctx.src(n)[:40]}"), fn.loc(n), f"`{ctx.src(n)[:60]}` inserts outside the loop over not-submitted jobs")
         rets = [n for n in iter_own(fn.node) if isinstance(n, ast.Return)]
         r.check(len(rets) == 1, f"{fn.short}: single return", key_of(fn, "returns"), fn.loc(), "several returns")
-        lpvar = srcs[0][0].target.id if isinstance(srcs[0][0].target, ast.Name) else None
-        ins = [n for n in iter_own(fn.node) if (isinstance(n, ast.Call) and isinstance(n.func, ast.Attribute) and n.func.attr in ("append", "add", "extend", "insert"))
-               or (isinstance(n, ast.Subscript) and isinstance(n.ctx, ast.Store))]
-        for n in ins:
-            st = ctx.stmt_of(fn, n)
-            names = {x.id for x in ast.walk(st) if isinstance(x, ast.Name) and isinstance(x.ctx, ast.Load)}
-            inloop = any(l is srcs[0][0] for l in ctx.enclosing(fn, n, (ast.For,)))
-            r.check(inloop and lpvar in names, f"{fn.short}: only loop candidates are collected", key_of(fn, f"collect {ctx.src(st)[:40]}"), fn.loc(n),
-                    f"`{ctx.src(st)[:60]}` adds something other than the current not-submitted candidate")
     # iter_jobs yields a job only if state is None or job.state == state
     cfg = ctx.cfg(it)
     ys = [n for n in cfg.nodes if n.kind == "stmt" and any(isinstance(x, (ast.Yield, ast.YieldFrom)) for x in iter_own(n.ast))]
